@@ -188,7 +188,7 @@ func (x *execCtx) evalSRF(f *FuncX, sc *scope) (*RowSet, error) {
 			if args[0] == nil {
 				return &RowSet{Cols: []string{"value"}}, nil
 			}
-			j, err := asJSON(args[0])
+			j, err := asJSONArg(f.Name, args[0])
 			if err != nil {
 				return nil, err
 			}
@@ -198,7 +198,7 @@ func (x *execCtx) evalSRF(f *FuncX, sc *scope) (*RowSet, error) {
 			rs := &RowSet{Cols: []string{"value"}}
 			for _, e := range j.Arr {
 				if strings.HasSuffix(f.Name, "_text") {
-					rs.Rows = append(rs.Rows, []Value{e.textValue()})
+					rs.Rows = append(rs.Rows, []Value{jsonChildOf(j, e).textValue()})
 				} else {
 					c := e.Clone()
 					c.B = j.B
@@ -211,7 +211,7 @@ func (x *execCtx) evalSRF(f *FuncX, sc *scope) (*RowSet, error) {
 			if args[0] == nil {
 				return rs, nil
 			}
-			j, err := asJSON(args[0])
+			j, err := asJSONArg(f.Name, args[0])
 			if err != nil {
 				return nil, err
 			}
@@ -220,7 +220,7 @@ func (x *execCtx) evalSRF(f *FuncX, sc *scope) (*RowSet, error) {
 			}
 			for i, k := range j.Keys {
 				if strings.HasSuffix(f.Name, "_text") {
-					rs.Rows = append(rs.Rows, []Value{Text(k), j.Vals[i].textValue()})
+					rs.Rows = append(rs.Rows, []Value{Text(k), jsonChildOf(j, j.Vals[i]).textValue()})
 				} else {
 					c := j.Vals[i].Clone()
 					c.B = j.B
@@ -548,7 +548,7 @@ func builtinAgg(name string, rows [][]Value) (Value, error) {
 		if out.B {
 			return out.Normalize(), nil
 		}
-		return out, nil
+		return pinJSONText(out, "[", ", ", "", "]"), nil // doc 9.21: json_agg output is `[1, 2]`
 	case "json_object_agg", "jsonb_object_agg":
 		if len(rows) == 0 {
 			return nil, nil
@@ -568,7 +568,7 @@ func builtinAgg(name string, rows [][]Value) (Value, error) {
 		if name == "jsonb_object_agg" {
 			return out.Normalize(), nil
 		}
-		return out, nil
+		return pinJSONText(out, "{ ", ", ", " : ", " }"), nil // json_object_agg output is `{ "a" : 1, "b" : 2 }`
 	case "bool_and", "every", "bool_or":
 		var res Value
 		for _, r := range rows {
@@ -702,9 +702,8 @@ func (x *execCtx) builtin(f *FuncX, args []Value) (Value, bool, error) {
 		c := s.seqCache[q]
 		if f.Name == "currval" {
 			if c == nil || !c.returned {
-				if cache == 1 {
-					return q.Last, true, nil // historical behaviour of this model for uncached sequences
-				}
+				// doc 9.17 currval: session-local; "an error is reported if nextval has never
+				// been called for this sequence in this session" (also for uncached sequences)
 				return nil, true, pgErr("55000", "currval of sequence %q is not yet defined in this session", q.Name)
 			}
 			return c.last, true, nil
@@ -752,8 +751,19 @@ func (x *execCtx) builtin(f *FuncX, args []Value) (Value, bool, error) {
 		}
 		// setval discards what THIS session had cached; other sessions keep handing out their
 		// cached values (documented behaviour) — epoch is bumped only for the calling session's view
-		if s.seqCache != nil {
-			delete(s.seqCache, q)
+		// doc 9.17 setval: with is_called = true (the default) currval of THIS session reports the
+		// value set; with is_called = false "the value reported by currval is not changed"
+		if s.seqCache == nil {
+			s.seqCache = map[*Sequence]*seqCacheEntry{}
+		}
+		c := s.seqCache[q]
+		if c == nil {
+			c = &seqCacheEntry{}
+			s.seqCache[q] = c
+		}
+		c.next, c.end = 1, 0 // nothing cached any more
+		if q.Called {
+			c.last, c.returned = q.Last, true
 		}
 		return q.Last, true, nil
 	case "hashtext":
@@ -773,6 +783,23 @@ func (x *execCtx) builtin(f *FuncX, args []Value) (Value, bool, error) {
 			return nil, true, err
 		}
 		return nil, true, nil
+	case "pg_try_advisory_lock", "pg_try_advisory_xact_lock":
+		// doc 9.27.10: like pg_advisory_lock / pg_advisory_xact_lock, but does not wait: returns
+		// true if the lock was obtained at once, false if it is held by another session
+		if len(args) != 1 || args[0] == nil {
+			return nil, true, engineErr("%s: only the single bigint key form is supported", f.Name)
+		}
+		b, _, ok := asBig(coerceUnkInt(args[0]))
+		if !ok {
+			return nil, true, pgErr("42883", "%s: bad key", f.Name)
+		}
+		if s.db.AdvisoryHeldByOther(b.Int64(), s.ID) {
+			return false, true, nil
+		}
+		if err := s.advisoryLock(b.Int64(), f.Name == "pg_try_advisory_xact_lock"); err != nil {
+			return nil, true, err
+		}
+		return true, true, nil
 	case "pg_advisory_unlock":
 		b, _, ok := asBig(coerceUnkInt(args[0]))
 		if !ok {
@@ -984,7 +1011,8 @@ func (x *execCtx) builtin(f *FuncX, args []Value) (Value, bool, error) {
 		if f.Name == "jsonb_build_object" {
 			return out.Normalize(), true, nil
 		}
-		return out, true, nil
+		// doc 9.16 Table 9.47: json_build_object('foo', 1, 2, row(3,'a')) → {"foo" : 1, "2" : {"f1":3,"f2":"a"}}
+		return pinJSONText(out, "{", ", ", " : ", "}"), true, nil
 	case "json_build_array", "jsonb_build_array":
 		out := &JSON{Kind: JArray, Arr: []*JSON{}}
 		for _, a := range args {
@@ -997,7 +1025,8 @@ func (x *execCtx) builtin(f *FuncX, args []Value) (Value, bool, error) {
 		if f.Name == "jsonb_build_array" {
 			return out.Normalize(), true, nil
 		}
-		return out, true, nil
+		// doc 9.16 Table 9.47: json_build_array(1, 2, 'foo', 4, 5) → [1, 2, "foo", 4, 5]
+		return pinJSONText(out, "[", ", ", "", "]"), true, nil
 	case "jsonb_concat":
 		if anyNull() {
 			return nil, true, nil
@@ -1044,7 +1073,7 @@ func (x *execCtx) builtin(f *FuncX, args []Value) (Value, bool, error) {
 		if anyNull() {
 			return nil, true, nil
 		}
-		j, err := asJSON(args[0])
+		j, err := asJSONArg(f.Name, args[0])
 		if err != nil {
 			return nil, true, err
 		}
@@ -1112,6 +1141,16 @@ func (x *execCtx) builtin(f *FuncX, args []Value) (Value, bool, error) {
 		}
 		for _, p := range strings.Split(src, sep) {
 			arr.Items = append(arr.Items, Text(p))
+		}
+		// doc 9.19 string_to_array(string, delimiter [, null_string]): fields matching
+		// null_string become NULL (`string_to_array('xx~~yy~~zz', '~~', 'yy')` → {xx,NULL,zz})
+		if len(args) > 2 && args[2] != nil {
+			ns := argText(2)
+			for i, it := range arr.Items {
+				if string(it.(Text)) == ns {
+					arr.Items[i] = nil
+				}
+			}
 		}
 		return arr, true, nil
 	case "array_to_string":
